@@ -1,5 +1,8 @@
 use zvtverif::engine::*;
 
+#[global_allocator]
+static ALLOC: zvtverif::alloc::Counting = zvtverif::alloc::Counting;
+
 fn usage() -> ! {
     eprintln!("usage: zvtverif <C01..C20> <quick|thorough> | zvtverif <ID> --replay <file>");
     std::process::exit(2)
@@ -12,6 +15,9 @@ fn main() {
         usage();
     }
     let id = args[0].to_uppercase();
+    if id == "C02" && args[1].starts_with("--") && args[1] != "--replay" {
+        std::process::exit(zvtverif::props::c02::twin_main(&args[1..]));
+    }
     if args[1] == "--replay" {
         let Some(path) = args.get(2) else { usage() };
         let Some((check, input)) = load_replay(std::path::Path::new(path)) else {
